@@ -442,14 +442,15 @@ Qed.
 (* soundness of the boolean checkers evaluated on the implementation's output *)
 Lemma holds_pgen_sound k :
   holds_pgen k = true ->
-  geno_domb false (pc_g k) = true -> chunk_dom (pc_cw k) -> chunk_dom (pc_cr k) ->
+  geno_domb false (pc_g k) = true -> pos_domb true (pc_g k) = true ->
+  chunk_dom (pc_cw k) -> chunk_dom (pc_cr k) ->
   pc_wpre k = false -> pc_rpre k = false ->
   exists g', pc_back k = Ok g'
     /\ (g_variants (pc_g k) <> [] -> rt_rel (pc_g k) g')
     /\ (g_variants (pc_g k) = [] -> empty_rel (pc_g k) g').
 Proof.
-  unfold holds_pgen. intros H Hd Hw Hr Hwp Hrp.
-  rewrite (geno_domb_domb0 _ _ Hd), (proj2 (chunk_domb_spec _) Hw), (proj2 (chunk_domb_spec _) Hr) in H.
+  unfold holds_pgen. intros H Hd Hpos Hw Hr Hwp Hrp.
+  rewrite (geno_domb_domb0 _ _ Hd), Hpos, (proj2 (chunk_domb_spec _) Hw), (proj2 (chunk_domb_spec _) Hr) in H.
   rewrite (geno_domb_samples _ _ Hd), (no_half_domain _ Hd) in H. cbn [andb] in H.
   unfold same_back, written, is_empty_geno in H. rewrite Hwp, Hrp, (geno_domb_samples _ _ Hd) in H. cbn [orb] in H.
   destruct (pc_back k) as [g'|]; [|discriminate].
@@ -461,15 +462,16 @@ Qed.
 (* variants without samples through PGEN: no interpreter crash, and if anything is read back
    it is the empty matrix with the same variants *)
 Lemma holds_pgen_sound_nosamples k :
-  holds_pgen k = true -> geno_domb0 true (pc_g k) = true -> chunk_dom (pc_cw k) -> chunk_dom (pc_cr k) ->
+  holds_pgen k = true -> geno_domb0 true (pc_g k) = true -> pos_domb true (pc_g k) = true ->
+  chunk_dom (pc_cw k) -> chunk_dom (pc_cr k) ->
   g_samples (pc_g k) = [] -> g_variants (pc_g k) <> [] ->
   match pc_back k with
   | Ok g' => empty_rel (pc_g k) g'
   | Err e => e <> E_Crash /\ e <> 12
   end.
 Proof.
-  unfold holds_pgen. intros H Hd Hw Hr Hn Hp.
-  rewrite Hd, (proj2 (chunk_domb_spec _) Hw), (proj2 (chunk_domb_spec _) Hr), Hn in H. cbn [andb lenZ length Z.of_nat Z.eqb] in H.
+  unfold holds_pgen. intros H Hd Hpos Hw Hr Hn Hp.
+  rewrite Hd, Hpos, (proj2 (chunk_domb_spec _) Hw), (proj2 (chunk_domb_spec _) Hr), Hn in H. cbn [andb lenZ length Z.of_nat Z.eqb] in H.
   assert (Ep : (lenZ (g_variants (pc_g k)) =? 0) = false).
   { apply Z.eqb_neq. unfold lenZ. destruct (g_variants (pc_g k)); [congruence|cbn [length]; lia]. }
   rewrite Ep in H. cbn [negb] in H.
@@ -478,13 +480,13 @@ Proof.
 Qed.
 
 Lemma holds_vcf_sound k :
-  holds_vcf k = true -> geno_domb0 true (vc_g k) = true ->
+  holds_vcf k = true -> geno_domb0 true (vc_g k) = true -> pos_domb false (vc_g k) = true ->
   vc_wpre k = false -> vc_rpre k = false ->
   exists g', vc_back k = Ok g'
     /\ (g_samples (vc_g k) <> [] -> g_variants (vc_g k) <> [] -> rt_rel (vc_g k) g')
     /\ (g_samples (vc_g k) = [] \/ g_variants (vc_g k) = [] -> empty_rel (vc_g k) g').
 Proof.
-  unfold holds_vcf. intros H Hd Hwp Hrp. rewrite Hd in H.
+  unfold holds_vcf. intros H Hd Hpos Hwp Hrp. rewrite Hd, Hpos in H. cbn [andb] in H.
   unfold same_back, written in H. rewrite Hwp, Hrp in H.
   destruct (vc_back k) as [g'|]; [|discriminate].
   exists g'. split; [reflexivity|]. unfold is_empty_geno in H.
